@@ -157,6 +157,13 @@ func cellsC05(thorough bool) []Cfg {
 			out = append(out, c)
 		}
 	}
+	// guns with a successful warm-up (shared deps) under the common plans
+	for _, f := range []Fault{{}, {"prov", 1}, {"panic", 1}, {"gun", 2}, {"aggend", 0}} {
+		c := base()
+		c.Fault = f
+		c.WarmUp = true
+		out = append(out, c)
+	}
 	// cancellation at every phase
 	for _, shot := range []int64{0, 600000} {
 		for _, per := range []bool{false, true} {
